@@ -5,3 +5,10 @@ check(
     "Trusted: the reference interpreter L and evaluator Sem in /verif/mc/sem; lexical scoping of indices; values checked on 2-3 fixed generic environments with 50-digit arithmetic (tolerance 1e-10 for folded float literals). Nothing is claimed for deeper terms.",
     "DESIGN.md 3 C05",
 )
+check(
+    "C10",
+    "explicit-state BFS over index-notation recipes (pipeline grammar depth 5-6, 3 reused Index objects); passes run on every state vs reference value",
+    "Every expression of the stated pipeline grammar (index, multiply/add, as_tensor with all index permutations, index again with the same pool indices, multiply/add again) is built on the real API; expand_indices, remove_component_tensors, renumber_indices and their length-2 compositions are executed on each state and the result is compared with the input for shape, free indices and value at every free-index assignment (lexical scoping); expand_indices results are checked to contain no index nodes.",
+    "Trusted: the reference evaluator Sem (lexical scoping of indices). Exceptions from a pass are counted as rejections, not alarms. Depth/alphabet bounds as stated in the evidence; variables are pre-built terminals (scalar, vector, matrix).",
+    "DESIGN.md 3 C10",
+)
